@@ -328,6 +328,10 @@ def run(cx, rep):
         hits = scratch_rule(cx.canary, None, None, lambda f: True, collect=True)
         rep.ob("C05.6", "control/canary-scratch", any("backtrack_shared" in h for h in hits) and not any("backtrack_fresh" in h or "backtrack_restored" in h for h in hits),
                "positive control: the canary crate's shared scratch buffer must be reported and its fresh / restored twins must not (reported: %s)" % hits, "canary/rs/src/lib.rs")
+    # ---------------------------------------------------------------- C05.7
+    rep.rule("C05.7", "twin procedures of the subtyping engine agree (exact / open, number / string, list / set, map / mapping)")
+    import twins
+    twins.twin_rule(cx, rep, "C05.7", r"subtyping/(mapping|semtype|subtype|bdd|dnf|mod)\.rs", floor=8)
 
 
 MUTATORS = {"push", "insert", "extend", "clear", "remove", "pop", "truncate", "swap", "sort", "retain", "append", "drain", "push_str"}
